@@ -410,6 +410,7 @@ func main() {
 	ptrStride := flag.Int("ptrstride", 1, "acceptance: every n-th of the 256 pointer pairs per triple (1 = all 2^26 headers)")
 	decStride := flag.Int("decstride", 16, "Decoded.DecodeFromBytes is run on every n-th enumerated pointer pair")
 	workers := flag.Int("workers", 4, "goroutines")
+	thin := flag.Int("thin", 1, "of the -totals triples with more than 32 hops keep every n-th (seeded offset)")
 	only := flag.String("only", "", "replay: tabulate only this triple a,b,c")
 	flag.Parse()
 
@@ -457,7 +458,7 @@ func main() {
 				continue
 			}
 			t := [3]int{i >> 6, i & 63, c}
-			if tot[t[0]+t[1]+t[2]] {
+			if tot[t[0]+t[1]+t[2]] && (t[0]+t[1]+t[2] <= 32 || (t[0]*64+t[1]+int(vt.Seed()))%*thin == 0) {
 				chosen = append(chosen, t)
 			} else {
 				rest = append(rest, t)
